@@ -273,7 +273,20 @@ func H_C20_bind() {
 	nd.Assert(id+".start", r.RewardStartTime == uint64(asset.RewardStartTime.UnixNano()))
 	nd.Assert(id+".lastchange", r.LastRewardChangeTime == uint64(asset.LastRewardChangeTime.UnixNano()))
 	nd.Assert(id+".fields", r.Denom == asset.Denom && r.IsInitialized == asset.IsInitialized)
-	// delegation binding vs gRPC delegation query
+}
+
+// H_C20_bind_delegation: the contract-facing delegation binding reports the balance of the gRPC
+// delegation query (its own harness: the time-field obligations of H_C20_bind are a known finding and
+// end their paths).
+func H_C20_bind_delegation() {
+	id := "C20.bind.delegation"
+	st := Build(shapeActor("shape"), Opts{})
+	e := st.E
+	kp := e.K
+	qp := bindings.NewAllianceQueryPlugin(&kp)
+	var bz []byte
+	var err error
+	nd.Reach(id)
 	if !NoPanic(id, func() { bz, err = qp.GetDelegation(e.Ctx, Denoms[0], Dels[0].String(), Vals[0].String()) }) {
 		return
 	}
